@@ -29,6 +29,8 @@ def configs(tier):
         dict(name="gen: descriptor replaced underneath a sock with read and write parked", sample=n,
              over=dict(Kinds=["sock"], Cmds={"read", "write", "cancel", "close"}, Envs={"send", "fillw", "yank"},
                        MaxOps=3, MaxCmds=mc)),
+        dict(name="gen: descriptor replaced, then a write chain meets the dispatch limit: registration of the second direction is refused", sample=n // 2,
+             over=dict(Kinds=["sock"], Cmds={"read", "write", "cancel", "close"}, Envs={"yank"}, MaxOps=4, MaxCmds=mc + 2)),
         dict(name="gen: timers + posts + sock", sample=n // 2,
              over=dict(Kinds=["sock"], NT=2, MaxTick=2, MaxPosts=2, TickUs=2000,
                        Cmds={"read", "close", "tonce", "trep", "tcancel", "tclose", "post"}, Envs={"send", "tick"},
